@@ -75,14 +75,66 @@ func Compare(a, b any) int {
 }
 
 func Cmp[T int | int32 | int64 | int16 | int8 | uint | uint32 | uint64 | uint16 | byte | float32 | float64](a T, b any) int {
-	v := As[T](b)
-	if a == v {
+	// two integers are compared exactly by sign and magnitude, anything else as
+	// float64, so that the result does not depend on which operand comes first
+	if an, am, ok := integer(a); ok {
+		if bn, bm, ok := integer(b); ok {
+			switch {
+			case an != bn:
+				if an {
+					return -1
+				}
+				return 1
+			case am == bm:
+				return 0
+			case (am > bm) != an:
+				return 1
+			default:
+				return -1
+			}
+		}
+	}
+	x, y := As[float64](a), As[float64](b)
+	if x == y {
 		return 0
 	}
-	if a > v {
+	if x > y {
 		return 1
 	}
 	return -1
+}
+
+// integer splits an integer of any kind into its sign and magnitude
+func integer(v any) (negative bool, magnitude uint64, ok bool) {
+	signed := func(i int64) (bool, uint64, bool) {
+		if i < 0 {
+			return true, uint64(-(i + 1)) + 1, true
+		}
+		return false, uint64(i), true
+	}
+	switch t := v.(type) {
+	case int:
+		return signed(int64(t))
+	case int64:
+		return signed(t)
+	case int32:
+		return signed(int64(t))
+	case int16:
+		return signed(int64(t))
+	case int8:
+		return signed(int64(t))
+	case uint:
+		return false, uint64(t), true
+	case uint64:
+		return false, t, true
+	case uint32:
+		return false, uint64(t), true
+	case uint16:
+		return false, uint64(t), true
+	case uint8:
+		return false, uint64(t), true
+	}
+	return false, 0, false
 }
 
 func As[T int | int32 | int64 | int16 | int8 | uint | uint32 | uint64 | uint16 | byte | float32 | float64](v any) T {
